@@ -1,5 +1,5 @@
 """C12 — encoder output is always valid target-encoding text (structural clauses: ISO-2022-JP state discipline)."""
-import r_state, r_handle, r_account
+import r_state, r_handle, r_account, r_singlebyte
 
 MANIFEST = {
     'category': 'other',
@@ -12,7 +12,8 @@ MANIFEST = {
             'there, reports OutputFull without changing state when the escape does not fit, has_pending_state() is exactly state != Ascii, '
             'and only ISO-2022-JP can have pending state; (D2) whole characters only: every byte goes through a linear handle obtained from '
             'a space test covering the whole character (R-HANDLE), and no fetched character is dropped (R-ACCOUNT). That the bytes decode back '
-            'to the input (table contents, pointer arithmetic) is not decided.',
+            'to the input (table contents, pointer arithmetic) is not decided. ' 
+            '(R-SINGLEBYTE) a byte the single-byte encoder emits without a table look-up decodes back to the character it was emitted for: the run parameters of all 28 single-byte encodings mirror the decode tables entry by entry.',
     'note': 'Trusted: rustc MIR, mirx, rule library, the escape table of Encoding Standard §12.2.2 transcribed in rules/r_state.py.',
     'technique': 'typestate/pairing rules over bounded MIR path summaries + handle typestate + dataflow',
 }
@@ -26,4 +27,5 @@ def run(rep, facts, tier):
         r_handle.run(rep, f, c)
         nb, ng = r_account.run(rep, f, c, 'R-ACCOUNT', lambda n: 'Encoder::' in n)
         rep.floor('R-ACCOUNT', 'encoder bodies with unit fetches', nb, 14, c)
+        r_singlebyte.run(rep, f, c)
     return ('other', MANIFEST['text'], [])
